@@ -44,7 +44,8 @@ def run_oracle(pid, cases):
         if l.startswith("FAIL "):
             head, _, detail = l.partition(" | ")
             f = head.split()
-            fails.append({"entry": f[1], "input_hex": f[2], "key": f[3] if len(f) > 3 else "", "detail": detail[:400]})
+            tags = [t for t in f[4][5:].split(",") if t != "-"] if len(f) > 4 and f[4].startswith("tags=") else []
+            fails.append({"entry": f[1], "input_hex": f[2], "key": f[3] if len(f) > 3 else "", "tags": tags, "detail": detail[:400]})
         elif l.startswith("STAT "):
             stat = l
     return fails, stat
